@@ -1612,6 +1612,31 @@ bus_matchmaker_remove_rule (BusMatchmaker   *matchmaker,
   bus_match_rule_unref (rule);
 }
 
+/* Whether bus_matchmaker_remove_rule_by_value() would find a rule to remove */
+dbus_bool_t
+bus_matchmaker_has_rule_by_value (BusMatchmaker   *matchmaker,
+                                  BusMatchRule    *value)
+{
+  DBusList **rules;
+  DBusList *link;
+
+  rules = bus_matchmaker_get_rules (matchmaker, value->message_type,
+      value->interface, FALSE);
+
+  if (rules == NULL)
+    return FALSE;
+
+  for (link = _dbus_list_get_first_link (rules);
+       link != NULL;
+       link = _dbus_list_get_next_link (rules, link))
+    {
+      if (match_rule_equal (link->data, value))
+        return TRUE;
+    }
+
+  return FALSE;
+}
+
 /* Remove a single rule which is equal to the given rule by value */
 dbus_bool_t
 bus_matchmaker_remove_rule_by_value (BusMatchmaker   *matchmaker,
